@@ -23,6 +23,7 @@ pub(crate) fn mk_runtime(arena: &'static Arena, frame: &'static Arena) -> Runtim
     Runtime {
         env: Vec::new_in(arena),
         function_scopes: Vec::new_in(arena),
+        activations: Vec::new_in(arena),
         output: Vec::new_in(arena),
         errors: Diagnostics::new(arena),
         arena,
